@@ -8,6 +8,7 @@ mod exec;
 mod kbd;
 mod tables;
 mod lcd;
+mod mem;
 mod regs;
 mod rt;
 mod timer;
@@ -20,6 +21,7 @@ pub struct Ctx {
     pub lcd: lcd::LcdCtx,
     pub exec: exec::ExecCtx,
     pub kbd: kbd::KbdCtx,
+    pub mem: mem::MemCtx,
 }
 
 fn dispatch(ctx: &mut Ctx, req: &Value) -> Result<Value, String> {
@@ -34,6 +36,7 @@ fn dispatch(ctx: &mut Ctx, req: &Value) -> Result<Value, String> {
         c if c.starts_with("exec.") => exec::handle(&mut ctx.exec, c, req),
         c if c.starts_with("tables.") => tables::handle(c, req),
         c if c.starts_with("kbd.") => kbd::handle(&mut ctx.kbd, c, req),
+        c if c.starts_with("mem.") => mem::handle(&mut ctx.mem, c, req),
         _ => Err(format!("unknown cmd {cmd}")),
     }
 }
@@ -42,7 +45,7 @@ fn main() {
     let stdin = io::stdin();
     let stdout = io::stdout();
     let mut out = io::BufWriter::new(stdout.lock());
-    let mut ctx = Ctx { regs: regs::RegsCtx::default(), timer: timer::TimerCtx::default(), rt: rt::RtCtx::default(), driver: driver::DriverCtx::default(), lcd: lcd::LcdCtx::default(), exec: exec::ExecCtx::default(), kbd: kbd::KbdCtx::default() };
+    let mut ctx = Ctx { regs: regs::RegsCtx::default(), timer: timer::TimerCtx::default(), rt: rt::RtCtx::default(), driver: driver::DriverCtx::default(), lcd: lcd::LcdCtx::default(), exec: exec::ExecCtx::default(), kbd: kbd::KbdCtx::default(), mem: mem::MemCtx::default() };
     for line in stdin.lock().lines() {
         let line = match line {
             Ok(l) => l,
